@@ -87,15 +87,30 @@ func (w *wsCtx) add(k string, base ssa.Value, slice bool) {
 		e.full = true
 		return
 	}
+	// an object allocated inside the loop (or inside a callee that runs in the loop) is fresh in every iteration: it cannot
+	// be a cell that existed before the loop.  An object allocated BEFORE the loop is such a cell (it is a root like any other).
+	insideLoop := func(in ssa.Instruction) bool {
+		return w.inCallee || w.li == nil || w.li.blocks[in.Block()]
+	}
 	switch b := base.(type) {
-	case *ssa.Alloc, *ssa.MakeSlice, *ssa.MakeMap:
-		return // fresh object: cannot be a cell that existed before the loop
+	case *ssa.Alloc:
+		if insideLoop(b) {
+			return
+		}
+	case *ssa.MakeSlice:
+		if insideLoop(b) {
+			return
+		}
+	case *ssa.MakeMap:
+		if insideLoop(b) {
+			return
+		}
 	case *ssa.Slice:
-		if _, ok := b.X.(*ssa.Alloc); ok {
+		if al, ok := b.X.(*ssa.Alloc); ok && insideLoop(al) {
 			return
 		}
 	case *ssa.Convert:
-		if isString(b.X.Type()) {
+		if isString(b.X.Type()) && insideLoop(b) {
 			return // []byte(s) allocates
 		}
 	}
@@ -799,6 +814,11 @@ func (p *Prog) VerifyFunc(fn *ssa.Function) *FuncVC {
 			}
 			c.addObl(&Obligation{Name: fmt.Sprintf("ensures#%s@ret%d", lbl, ri), Kind: "ensures", Tags: en.Tags, Guard: r.cond, Goal: g.t, Clause: en.Src, Pos: c.pos(r.pos), SrcLine: c.P.SrcLine(r.pos)})
 		}
+	}
+	// per-return canaries (thorough tier; diagnostic): a return that is unreachable under the accumulated assumptions is either
+	// dead code or the sign of contradictory contracts on the path leading to it
+	for ri, r := range rets {
+		c.addObl(&Obligation{Name: fmt.Sprintf("vacuity:reachable@ret%d", ri), Kind: "vacuity-ret", Guard: r.cond, Goal: "false", ExpectSat: true, SrcLine: c.P.SrcLine(r.pos)})
 	}
 	// vacuity canary: some return must be reachable under all assumptions
 	if len(retConds) > 0 {
